@@ -173,6 +173,14 @@ def minimise(seq, w, klass, pkey, counter):
                 cur = cand
                 again = True
                 break
+    # canonical form: an instruction that is only there as context becomes Nil, so that the rule
+    # shapes left in the minimal input are the ones the failure needs
+    if len(cur) <= 64:
+        for i in range(len(cur)):
+            if cur[i] != ("Nil", 0, 0):
+                cand = cur[:i] + [("Nil", 0, 0)] + cur[i + 1:]
+                if bad(cand):
+                    cur = cand
     return cur
 
 
